@@ -448,6 +448,49 @@ func ruleSHARE(c *Ctx) {
 					}
 					return tn, stt.Field(fa.Field).Name(), true
 				}
+				// writes that land in a package-level variable of the module
+				// (directly, in one of its fields or elements, or through the
+				// map / slice / pointer it holds): process-wide state that
+				// every VM of every clone shares
+				var rootGlobal func(v ssa.Value, depth int) *ssa.Global
+				rootGlobal = func(v ssa.Value, depth int) *ssa.Global {
+					if depth > 6 {
+						return nil
+					}
+					switch x := v.(type) {
+					case *ssa.Global:
+						if x.Pkg != nil && w.inModulePkg(x.Pkg.Pkg) {
+							return x
+						}
+					case *ssa.FieldAddr:
+						return rootGlobal(x.X, depth+1)
+					case *ssa.IndexAddr:
+						return rootGlobal(x.X, depth+1)
+					case *ssa.UnOp:
+						if x.Op == token.MUL {
+							return rootGlobal(x.X, depth+1)
+						}
+					case *ssa.Slice:
+						return rootGlobal(x.X, depth+1)
+					}
+					return nil
+				}
+				if mu, ok := ins.(*ssa.MapUpdate); ok {
+					if g := rootGlobal(mu.Map, 0); g != nil {
+						nStores++
+						c.fail("global-write/"+g.Pkg.Pkg.Name()+"."+g.Name(), &posNode{mu.Pos()}, "the package-level map "+g.Name()+" (or a map held in it) is written in "+w.ctxKey(mu.Pos())+", a function reachable from VM.Run: all VMs in the process - every clone - share it without synchronisation")
+						continue
+					}
+				}
+				if st, ok := ins.(*ssa.Store); ok {
+					if _, direct := st.Addr.(*ssa.Global); !direct {
+						if g := rootGlobal(st.Addr, 0); g != nil {
+							nStores++
+							c.fail("global-write/"+g.Pkg.Pkg.Name()+"."+g.Name(), &posNode{st.Pos()}, "the package-level variable "+g.Name()+" (a field or element of it, or the storage it points to) is written in "+w.ctxKey(st.Pos())+", a function reachable from VM.Run: all VMs in the process - every clone - share it without synchronisation")
+							continue
+						}
+					}
+				}
 				if mu, ok := ins.(*ssa.MapUpdate); ok {
 					if tn, fn2, ok := sharedHolder(mu.Map); ok {
 						nStores++
@@ -489,9 +532,9 @@ func ruleSHARE(c *Ctx) {
 					key := "shared-write/" + tn + "." + f.Name()
 					sharedSites[key] = append(sharedSites[key], st.Pos())
 				case *ssa.Global:
-					if a.Pkg != nil && (a.Pkg.Pkg == p.Types || a.Pkg.Pkg == w.Parser.Types || a.Pkg.Pkg == w.Token.Types) {
+					if a.Pkg != nil && w.inModulePkg(a.Pkg.Pkg) {
 						nStores++
-						c.fail(seq.next("global-write/"+w.ctxKey(st.Pos())+"/"+a.Name()), &posNode{st.Pos()}, "package-level variable "+a.Name()+" is written in a function reachable from VM.Run: all VMs in the process race on it")
+						c.fail("global-write/"+a.Pkg.Pkg.Name()+"."+a.Name(), &posNode{st.Pos()}, "package-level variable "+a.Name()+" is written in "+w.ctxKey(st.Pos())+", a function reachable from VM.Run: all VMs in the process race on it")
 					}
 				}
 			}
